@@ -142,6 +142,7 @@ def run_property(prop, tier, seed, root):
     functions = sorted({j["contract"] for j in jobs})
     samples = []
     names_now = set()
+    not_generalised = []
     generated_kinds = set()
     rng = random.Random(seed)
     for j in jobs:
@@ -152,6 +153,12 @@ def run_property(prop, tier, seed, root):
         for e in j["errors"]:
             errors.append(f"{j['contract']} {j['instance']}: {e}")
         for d, tr in j["unsupported"]:
+            if j.get("generalisation"):
+                # an instance that only widens the quantifier range (symbolic channel count, ...): when the code is
+                # written in a way the symbolic route cannot follow, the generalisation is simply not established
+                # on this tree -- the enumerated instances still decide the property
+                not_generalised.append({"contract": j["contract"], "instance": j["instance"], "why": d})
+                continue
             undecided.append({"contract": j["contract"], "instance": j["instance"], "why": f"unmodelled construct: {d}", "path": tr})
         for r in j["results"]:
             if not relevant(j["contract"], r["name"]):
@@ -160,7 +167,9 @@ def run_property(prop, tier, seed, root):
             counts[r["status"]] += 1
             names_now.add(r["name"])
             backends[r["backend"]] = backends.get(r["backend"], 0) + 1
-            if r["status"] == "undecided":
+            if r["status"] == "undecided" and j.get("generalisation"):
+                not_generalised.append({"contract": j["contract"], "instance": j["instance"], "why": f"solver left {r['name']} open"})
+            elif r["status"] == "undecided":
                 undecided.append({"contract": j["contract"], "instance": j["instance"], "obligation": r["name"], "why": r.get("reason", "unknown")})
             elif r["status"] == "refuted":
                 findings.append(("refuted", j, r))
@@ -321,7 +330,9 @@ def run_property(prop, tier, seed, root):
         tail = "" if f.reproduced else " no-failing-input-found"
         lines.append(f"VIOLATION property={prop} replay={path} obligation={f.detail['obligation']}{tail}")
     status = 0
-    if errors or counts["obligations"] == 0 and selected:
+    if any(f.reproduced for f in violations):
+        status = 1      # a failing input replayed on the real code stands, whatever else went wrong in the run
+    elif errors or counts["obligations"] == 0 and selected:
         status = 3
     elif violations:
         status = 1
@@ -349,6 +360,8 @@ def run_property(prop, tier, seed, root):
         "rule": "bounded stand-in: spec function evaluated concretely vs the real function on seeded inputs; distinct = distinct (function, instance, input) triples",
         "explanation": cfg.get("explanation", ""),
         "known_findings_hit": [h["id"] for h, _ in known_hits],
+        "generalisation_instances": sorted({f"{j['contract']} {j['instance']}" for j in jobs if j.get("generalisation")}),
+        "generalisations_not_established": not_generalised[:20],
         "canaries": canary_report, "canaries_killed": sum(1 for c_ in canary_report if c_["killed"]),
         "undecided_detail": undecided[:20], "vanished_obligations": vanished[:20],
         "source_hash": repo.source_hash, "tree": tid,
